@@ -9,7 +9,7 @@ CHECKS['C01'] = dict(
     category='model_checking', design_ref='DESIGN.md §3 C01',
     technique='explicit-state BFS over operation histories on the real rib.RIB with reference-model fold oracle',
     text=('Every history of the 29-letter ADD/REPLACE/DELETE/Flush alphabet (2 network instances, 5 entry kinds, cross-instance references, '
-          'MPLS label aliasing) up to the stated depth is executed on a fresh real rib.RIB, with forward references allowed and disallowed (and once with the RIB's consistency checks disabled altogether); after every '
+          'MPLS label aliasing) up to the stated depth is executed on a fresh real rib.RIB, with forward references allowed and disallowed (and once with the consistency checks of the RIB disabled altogether); after every '
           'step RIBContents() must equal the fold of the acknowledgements the RIB itself returned. Exhaustive within the depth bound, states deduplicated '
           'by canonical real state (contents, held operations, counters).'),
     note='Bounded depth (quick 4, thorough 6 or budget) and a 2-key-per-kind alphabet; payloads limited to fields that round-trip (payload fidelity is C07); ygot-internal map order not controlled.')
